@@ -181,3 +181,81 @@ def all_c01_lemmas():
         out.extend(s.lemmas())
     out.extend(next_step_lemmas())
     return out
+
+
+# =================================================================== C02: exactly once
+def qv(G, child, b, j):
+    """probability (as a real) of the co-parent of child at position j."""
+    return fv(P(G, dec(child, j), b))
+
+
+def beats(G, child, b, i, j):
+    """parent i keeps the child against co-parent j."""
+    return z3.Or(qv(G, child, b, j) > qv(G, child, b, i), z3.And(qv(G, child, b, j) == qv(G, child, b, i), j > i))
+
+
+def _best_def(G, child, b, m):
+    prev = Best(G, child, b, m - 1)
+    j = m - 1
+    better = z3.And(pt_idx(child, j) > 0, z3.Or(prev == -1, qv(G, child, b, j) < qv(G, child, b, prev)))
+    return z3.If(m <= 0, z3.IntVal(-1), z3.If(better, j, prev))
+
+
+Best = SpecFun('Best', [GRAMMAR.sort(), PT.sort(), T.F, T.IntS], T.IntS, _best_def,
+               doc='position of the least probable parent among positions < m (lowest position on ties), -1 if none')
+
+
+def _best_props(G, child, b, m):
+    j = z3.Int('j!bp')
+    bm = Best(G, child, b, m)
+    hyps = [0 <= m, m <= PT.len(child)]
+    concl = z3.And(
+        bm >= -1, bm < m,
+        z3.Implies(bm == -1, z3.ForAll([j], z3.Implies(z3.And(0 <= j, j < m), pt_idx(child, j) <= 0),
+                                       patterns=[z3.Select(PT.arr(child), j)])),
+        z3.Implies(bm != -1, z3.And(pt_idx(child, bm) > 0,
+                                    z3.ForAll([j], z3.Implies(z3.And(0 <= j, j < m, j != bm, pt_idx(child, j) > 0),
+                                                              beats(G, child, b, bm, j)),
+                                              patterns=[z3.Select(PT.arr(child), j)]))))
+    return hyps, concl
+
+
+best_props = Schema('C02.adopt_unique.exists', [('G', GRAMMAR.sort()), ('child', PT.sort()), ('b', T.F), ('m', T.IntS)],
+                    _best_props, induction='m',
+                    doc='the (probability, position)-least parent exists for every non-root node: it adopts the child')
+
+
+def adopt_by(G, child, b, i):
+    """parent at position i adopts child (the real Adopt with the parent's own probability)."""
+    return z3.And(0 <= i, i < PT.len(child), pt_idx(child, i) > 0,
+                  adopt(G, child, b, i, P(G, dec(child, i), b)))
+
+
+def adopt_unique_lemmas():
+    from pyvc.runner import Lemma
+    G = z3.Const('G!au', GRAMMAR.sort())
+    child = z3.Const('child!au', PT.sort())
+    b = z3.Const('b!au', T.F)
+    i, i2 = z3.Ints('i!au i2!au')
+    n = PT.len(child)
+    out = [
+        Lemma('C02.adopt_unique.unique', [n >= 0, adopt_by(G, child, b, i), adopt_by(G, child, b, i2)], i == i2,
+              'two parents cannot both adopt the same child, also under exact probability ties'),
+    ]
+    # existence: the Best position adopts
+    bm = Best(G, child, b, n)
+    j = z3.Int('j!au')
+    nonroot = z3.And(0 <= j, j < n, pt_idx(child, j) > 0)
+    allnonneg = z3.ForAll([i], z3.Implies(z3.And(0 <= i, i < n), pt_idx(child, i) >= 0),
+                          patterns=[z3.Select(PT.arr(child), i)])
+    out.append(Lemma('C02.adopt_unique.adopts', [n >= 0, nonroot, allnonneg, best_props.inst(G, child, b, n)],
+                     adopt_by(G, child, b, bm),
+                     'every non-root node is adopted by some parent (so none is skipped)'))
+    return out
+
+
+def all_c02_lemmas():
+    out = []
+    out.extend(best_props.lemmas())
+    out.extend(adopt_unique_lemmas())
+    return out
